@@ -14,7 +14,7 @@ RULE = ('pairs of nested values, ignore_order on and off; with ignore_order: lis
         'lists of DeepDiff, DeepHash and Delta computations, each compared with its serial result. distinct = distinct (t1, t2, ignore_order); non-trivial = the diff is not empty')
 TRUSTED_BASE = ['CPython threads / GIL scheduling: interleavings are sampled, not enumerated', 'the memoised distance is a function of the cache key (assumption of the theorem; '
                 'exercised by the identical-results check)']
-ASSUMPTIONS = ['cutoff_intersection_for_pairs at its default (finding F16 at 1.0 with the pairs cache)', 'tree-shaped inputs']
+ASSUMPTIONS = ['cutoff_intersection_for_pairs at its default (finding F16 at 1.0 with the pairs cache)', 'tree-shaped inputs, and lists that refer to one template sub-list in several places']
 
 
 def canon(dd):
@@ -100,6 +100,22 @@ def split_family(rng):
     return t1, t2
 
 
+def template_family(rng):
+    """t1 refers to one sub-list object in several places (an item of the outer list that is also nested inside later items, the way
+    near-duplicate records get built); t2 holds edited copies"""
+    template = [rng.randrange(5), rng.randrange(5, 9), rng.choice(['x', 'y', 'z'])]
+    k = rng.randint(2, 3)
+    t1 = [template] + [[template] + rng.sample(['k', 'l', 'm', 'p', 'q', 'r', 's', 't'], 3) for _ in range(k)] + [['tail', 0]]
+    def edited():
+        c = list(template)
+        c[rng.randrange(3)] = rng.choice(['u', 'v', 'w', 17, 18])
+        return c
+    t2 = [edited()] + [[edited()] + list(row[1:]) for row in t1[1:-1]] + [['tail', 0]]
+    if rng.random() < 0.3:
+        rng.shuffle(t2)
+    return t1, t2
+
+
 def cache_keys(ctx):
     """the key under which a pairing is cached (combine_hashes_lists) separates different (added, removed) pairs of hash sets and does not
     depend on the order inside either set - the assumption under which the memo model identifies a cache key with its query"""
@@ -166,6 +182,7 @@ def run(ctx, impl_only=False):
     pairs = [near_duplicate_lists(ctx.rng) for _ in range(n)]
     pairs += [(x, C05.mutate(ctx.rng, g, copy.deepcopy(x))) for x in (g.container() for _ in range(n))]
     pairs += [split_family(ctx.rng) for _ in range(n // 2)]
+    pairs += [template_family(ctx.rng) for _ in range(max(6, n // 2))]
     cache_keys(ctx)
     lines, metas = [], []
     grid = [(cs, ts, pl) for cs in (0, 1, 2, 7, 5000) for ts in (0, 1, 2, 10) for pl in (0, 1)]
@@ -179,7 +196,7 @@ def run(ctx, impl_only=False):
                 ctx.violate(case0, 'DeepDiff raised %s' % type(e).__name__); continue
             if ref != '{}':
                 ctx.nontriv((repr(t1), repr(t2), io))
-            combos = grid if (ctx.thorough() and i % 6 == 0) else ctx.rng.sample(grid, 5)
+            combos = grid if (ctx.thorough() and i % 6 == 0) else ctx.rng.sample(grid, 5) + [(5000, 0, 0), (5000, 0, 1)]      # a cache that is never tuned off or evicted, always
             for (cs, ts, pl) in combos:
                 case = dict(case0, cache_size=cs, cache_tuning_sample_size=ts, cache_purge_level=pl)
                 ctx.evaluations += 1
